@@ -353,7 +353,7 @@ pub(crate) fn fixed_mul_div(a: i32, b: i32, c: i32) -> i32 {
 }
 
 pub(crate) fn pix_round(a: i32) -> i32 {
-    (a + 32) & !63
+    a.wrapping_add(32) & !63
 }
 
 pub(crate) fn pix_floor(a: i32) -> i32 {
